@@ -110,7 +110,7 @@ Definition omitted (o : sopts) (cd : cdef) (obj : value) (f : fdef) (x : option 
        || skip_if_holds (fs_skip_if (fd_ser f)) v
        || (is_vundef v && (fs_undefined (fd_ser f) || match dflt with Some VUndefined => true | _ => false end))
        || (is_vnone v && (fs_none_undef (fd_ser f) || (so_excl_none o && ty_has_none (fd_ty f))
-                          || (so_excl_defaults o && match dflt with Some VNone => true | _ => false end)))
+                          || ((fs_skip_default (fd_ser f) || so_excl_defaults o) && match dflt with Some VNone => true | _ => false end)))
        || ((fs_skip_default (fd_ser f) || so_excl_defaults o)
            && match dflt with
               | Some VNone | Some VUndefined | None => false
